@@ -674,6 +674,13 @@ func runTrees(r *core.Run, cases []treeCase, cfgs []config) {
 				}
 				detail["output"] = o.code
 				out := &p.res[o.pi]
+				if out.V8 && !out.Acorn {
+					// The two reference readers disagree on the OUTPUT text (V8, the engine that would run it, compiles it;
+					// acorn 8.16 does not, e.g. it misreads "async function(){} / y" as the start of a regular expression):
+					// no verdict can be based on that, it is counted as drift of the reference.
+					r.Drift("reference readers disagree on an output (V8 accepts, acorn: %s): input %q -> output %q", out.AErr, s.src, o.code)
+					continue
+				}
 				if !out.Acorn || !out.V8 {
 					key["check"] = "output-valid"
 					detail["acorn_error"], detail["v8_error"] = out.AErr, out.VErr
